@@ -159,4 +159,304 @@ theorem skip_absorbs_ws (ws rest : List Nat) (pos : Nat) (hws : ∀ c ∈ ws, is
     have := Runs.call_ok rule_Skip (Runs.star_cons (Runs.alt_l h1) (by simpa using hstop))
     exact ⟨_, by simpa using this⟩
 
+/-! ### comments -/
+
+/-- the body of a `/* … */` comment: no `*/` inside (and none formed with the closing `*`) -/
+def NoClose : List Nat → Prop
+  | [] => True
+  | [_] => True
+  | c :: d :: r => ¬ (c = 42 ∧ d = 47) ∧ NoClose (d :: r)
+
+instance decNoClose : (l : List Nat) → Decidable (NoClose l)
+  | [] => isTrue trivial
+  | [_] => isTrue trivial
+  | c :: d :: r =>
+    have := decNoClose (d :: r)
+    inferInstanceAs (Decidable (¬ (c = 42 ∧ d = 47) ∧ NoClose (d :: r)))
+
+abbrev longStep : Expr := .seq (.notP (.seq (.rng 42 42) (.rng 47 47))) .any
+
+theorem longStar (rest : List Nat) : ∀ (body : List Nat) (pos : Nat), NoClose body →
+    Runs G (.star longStep) pos (body ++ 42 :: 47 :: rest) (.ok (pos + body.length) (42 :: 47 :: rest) .nil) := by
+  intro body
+  induction body with
+  | nil =>
+    intro pos _
+    have hclose : Runs G (.seq (.rng 42 42) (.rng 47 47)) pos (42 :: 47 :: rest) (.ok (pos + 1 + 1) rest (T.append .nil .nil)) :=
+      Runs.seq_ok (Runs.rng_ok (by decide)) (Runs.rng_ok (by decide))
+    simpa using Runs.star_nil (Runs.seq_fail1 (b := .any) (Runs.not_fail hclose))
+  | cons c r ih =>
+    intro pos h
+    have hr : NoClose r := by
+      cases r with
+      | nil => trivial
+      | cons d r' => exact h.2
+    -- the closing pair does not start at `c`
+    have hnot : Runs G (.seq (.rng 42 42) (.rng 47 47)) pos (c :: (r ++ 42 :: 47 :: rest)) .fail := by
+      by_cases hc : c = 42
+      · subst hc
+        cases r with
+        | nil => exact Runs.seq_fail2 (Runs.rng_ok (by decide)) (Runs.rng_fail (by decide))
+        | cons d r' =>
+          have hd : d ≠ 47 := fun e => h.1 ⟨rfl, e⟩
+          exact Runs.seq_fail2 (Runs.rng_ok (by decide)) (Runs.rng_fail (by omega))
+      · exact Runs.seq_fail1 (Runs.rng_fail (by omega))
+    have hstep : Runs G longStep pos (c :: (r ++ 42 :: 47 :: rest)) (.ok (pos + 1) (r ++ 42 :: 47 :: rest) (T.append .nil .nil)) :=
+      Runs.seq_ok (Runs.not_ok hnot) Runs.any_ok
+    have := Runs.star_cons hstep (ih (pos + 1) hr)
+    simpa [T.append, Nat.add_assoc, Nat.add_comm 1] using this
+
+/-- a `/* … */` comment is consumed whole -/
+theorem long_ok (body rest : List Nat) (pos : Nat) (h : NoClose body) :
+    ∃ t, Runs G (.call R.LongComment) pos (47 :: 42 :: body ++ 42 :: 47 :: rest) (.ok (pos + (body.length + 4)) rest t) := by
+  have h1 : Runs G (.seq (.rng 47 47) (.rng 42 42)) pos (47 :: 42 :: (body ++ 42 :: 47 :: rest)) (.ok (pos + 1 + 1) (body ++ 42 :: 47 :: rest) (T.append .nil .nil)) :=
+    Runs.seq_ok (Runs.rng_ok (by decide)) (Runs.rng_ok (by decide))
+  have h2 := longStar rest body (pos + 1 + 1) h
+  have h3 : Runs G (.seq (.rng 42 42) (.rng 47 47)) (pos + 1 + 1 + body.length) (42 :: 47 :: rest) (.ok (pos + 1 + 1 + body.length + 1 + 1) rest (T.append .nil .nil)) :=
+    Runs.seq_ok (Runs.rng_ok (by decide)) (Runs.rng_ok (by decide))
+  have := Runs.call_ok rule_Long (Runs.seq_ok h1 (Runs.seq_ok h2 h3))
+  have e : pos + 1 + 1 + body.length + 1 + 1 = pos + (body.length + 4) := by omega
+  rw [e] at this
+  exact ⟨_, by simpa using this⟩
+
+/-- the body of a `//` or `#` comment: no CR, no LF -/
+def NoNL (body : List Nat) : Prop := ∀ c ∈ body, c ≠ 13 ∧ c ≠ 10
+
+/-- empty, or starting with CR or LF -/
+def NlHead : List Nat → Prop
+  | [] => True
+  | c :: _ => c = 13 ∨ c = 10
+
+instance (l : List Nat) : Decidable (NoNL l) := by unfold NoNL; infer_instance
+
+instance : (l : List Nat) → Decidable (NlHead l)
+  | [] => isTrue trivial
+  | c :: _ => inferInstanceAs (Decidable (c = 13 ∨ c = 10))
+
+abbrev lineStep : Expr := .seq (.notP (.alt (.rng 13 13) (.rng 10 10))) .any
+
+theorem lineStar (rest : List Nat) (hrest : NlHead rest) : ∀ (body : List Nat) (pos : Nat), NoNL body →
+    Runs G (.star lineStep) pos (body ++ rest) (.ok (pos + body.length) rest .nil) := by
+  intro body
+  induction body with
+  | nil =>
+    intro pos _
+    cases rest with
+    | nil =>
+      have : Runs G lineStep pos [] .fail := Runs.seq_fail2 (Runs.not_ok (Runs.alt_r Runs.rng_nil Runs.rng_nil)) Runs.any_nil
+      simpa using Runs.star_nil this
+    | cons c r =>
+      have hc : c = 13 ∨ c = 10 := hrest
+      have hnl : ∃ t, Runs G (.alt (.rng 13 13) (.rng 10 10)) pos (c :: r) (.ok (pos + 1) r t) := by
+        rcases hc with rfl | rfl
+        · exact ⟨_, Runs.alt_l (Runs.rng_ok (by decide))⟩
+        · exact ⟨_, Runs.alt_r (Runs.rng_fail (by decide)) (Runs.rng_ok (by decide))⟩
+      obtain ⟨t, ht⟩ := hnl
+      simpa using Runs.star_nil (Runs.seq_fail1 (b := .any) (Runs.not_fail ht))
+  | cons c r ih =>
+    intro pos h
+    have hc := h c (by simp)
+    have hnot : Runs G (.alt (.rng 13 13) (.rng 10 10)) pos (c :: (r ++ rest)) .fail :=
+      Runs.alt_r (Runs.rng_fail (by omega)) (Runs.rng_fail (by omega))
+    have hstep : Runs G lineStep pos (c :: (r ++ rest)) (.ok (pos + 1) (r ++ rest) (T.append .nil .nil)) :=
+      Runs.seq_ok (Runs.not_ok hnot) Runs.any_ok
+    have := Runs.star_cons hstep (ih (pos + 1) (fun x hx => h x (by simp [hx])))
+    simpa [T.append, Nat.add_assoc, Nat.add_comm 1] using this
+
+/-- a `// …` comment is consumed up to (not including) the line end -/
+theorem line_ok (body rest : List Nat) (pos : Nat) (h : NoNL body) (hrest : NlHead rest) :
+    ∃ t, Runs G (.call R.LineComment) pos (47 :: 47 :: body ++ rest) (.ok (pos + (body.length + 2)) rest t) := by
+  have h1 : Runs G (.seq (.rng 47 47) (.rng 47 47)) pos (47 :: 47 :: (body ++ rest)) (.ok (pos + 1 + 1) (body ++ rest) (T.append .nil .nil)) :=
+    Runs.seq_ok (Runs.rng_ok (by decide)) (Runs.rng_ok (by decide))
+  have h2 := lineStar rest hrest body (pos + 1 + 1) h
+  have := Runs.call_ok rule_Line (Runs.seq_ok h1 h2)
+  have e : pos + 1 + 1 + body.length = pos + (body.length + 2) := by omega
+  rw [e] at this
+  exact ⟨_, by simpa using this⟩
+
+/-- a `# …` comment is consumed up to (not including) the line end -/
+theorem unix_ok (body rest : List Nat) (pos : Nat) (h : NoNL body) (hrest : NlHead rest) :
+    ∃ t, Runs G (.call R.UnixComment) pos (35 :: body ++ rest) (.ok (pos + (body.length + 1)) rest t) := by
+  have h1 : Runs G (.rng 35 35) pos (35 :: (body ++ rest)) (.ok (pos + 1) (body ++ rest) .nil) := Runs.rng_ok (by decide)
+  have h2 := lineStar rest hrest body (pos + 1) h
+  have := Runs.call_ok rule_Unix (Runs.seq_ok h1 h2)
+  have e : pos + 1 + body.length = pos + (body.length + 1) := by omega
+  rw [e] at this
+  exact ⟨_, by simpa using this⟩
+
+/-! ### Skip absorbs every whitespace / comment string -/
+
+/-- the strings of the `Skip` language, written piece by piece: blanks, `/*…*/`, `//…` and `#…` up to a line end -/
+inductive SkipStr : List Nat → Prop
+  | nil : SkipStr []
+  | ws {c w} : isWs c → SkipStr w → SkipStr (c :: w)
+  | long {body w} : NoClose body → SkipStr w → SkipStr (47 :: 42 :: body ++ 42 :: 47 :: w)
+  | line {body w} : NoNL body → NlHead w → w ≠ [] → SkipStr w → SkipStr (47 :: 47 :: body ++ w)
+  | unix {body w} : NoNL body → NlHead w → w ≠ [] → SkipStr w → SkipStr (35 :: body ++ w)
+
+/-- split off the leading blanks -/
+def blanks : List Nat → List Nat × List Nat
+  | [] => ([], [])
+  | c :: r => if isWs c then ((blanks r).1 ++ [c] |>.reverse.reverse, (blanks r).2) |> fun p => (c :: (blanks r).1, p.2) else ([], c :: r)
+
+theorem blanks_eq : ∀ w : List Nat, (blanks w).1 ++ (blanks w).2 = w
+  | [] => rfl
+  | c :: r => by
+    simp only [blanks]
+    split
+    · simp [blanks_eq r]
+    · simp
+
+theorem blanks_ws : ∀ w : List Nat, ∀ c ∈ (blanks w).1, isWs c
+  | [] => by simp [blanks]
+  | c :: r => by
+    simp only [blanks]
+    split
+    · rename_i h
+      intro x hx
+      simp at hx
+      rcases hx with rfl | hx
+      · exact h
+      · exact blanks_ws r x hx
+    · simp
+
+theorem blanks_head : ∀ w : List Nat, NoWsHead (blanks w).2
+  | [] => by simp [blanks, NoWsHead]
+  | c :: r => by
+    simp only [blanks]
+    split
+    · exact blanks_head r
+    · rename_i h; exact h
+
+theorem blanks_len (w : List Nat) : (blanks w).1.length + (blanks w).2.length = w.length := by
+  have := congrArg List.length (blanks_eq w)
+  simpa using this
+
+theorem SkipStr.after_blanks {w : List Nat} (h : SkipStr w) : SkipStr (blanks w).2 := by
+  induction h with
+  | nil => simpa [blanks] using SkipStr.nil
+  | ws hc _ ih => simpa [blanks, hc] using ih
+  | long hb hw _ => simpa [blanks, isWs] using SkipStr.long hb hw
+  | line hb hn hne hw _ => simpa [blanks, isWs] using SkipStr.line hb hn hne hw
+  | unix hb hn hne hw _ => simpa [blanks, isWs] using SkipStr.unix hb hn hne hw
+
+abbrev skipAlt : Expr := .alt (.call R.Space) (.call R.Comment)
+
+theorem noWsHead_append {a b : List Nat} (ha : NoWsHead a) (hb : NoWsHead b) : NoWsHead (a ++ b) := by
+  cases a with
+  | nil => simpa using hb
+  | cons c r => exact ha
+
+theorem nlHead_append {a b : List Nat} (ha : NlHead a) (hne : a ≠ []) : NlHead (a ++ b) := by
+  cases a with
+  | nil => exact absurd rfl hne
+  | cons c r => exact ha
+
+/-- the loop of `Skip` on a Skip-string followed by something that stops it -/
+theorem skipStar (rest : List Nat) (hrest : StopsSkip rest) : ∀ (n : Nat) (w : List Nat), w.length ≤ n → SkipStr w → NoWsHead w →
+    ∀ pos, ∃ t, Runs G (.star skipAlt) pos (w ++ rest) (.ok (pos + w.length) rest t) := by
+  intro n
+  induction n with
+  | zero =>
+    intro w hlen _ _ pos
+    have : w = [] := by cases w with | nil => rfl | cons c r => simp at hlen
+    subst this
+    exact ⟨_, by simpa using Runs.star_nil (Runs.alt_r (space_fail (stops_ws hrest)) (comment_fail (stops_cm hrest)))⟩
+  | succ n ih =>
+    intro w hlen hw hhead pos
+    -- after one comment: blanks (eaten by Space in one go), then the rest of the string
+    have cont : ∀ (w' : List Nat) (p : Nat), w'.length ≤ n → SkipStr w' →
+        ∃ t, Runs G (.star skipAlt) p (w' ++ rest) (.ok (p + w'.length) rest t) := by
+      intro w' p hl hs
+      have hsplit := blanks_eq w'
+      have hl2 := blanks_len w'
+      obtain ⟨t2, h2⟩ := ih (blanks w').2 (by omega) hs.after_blanks (blanks_head w') (p + (blanks w').1.length)
+      cases hb : (blanks w').1 with
+      | nil =>
+        rw [hb] at hsplit hl2
+        simp at hsplit hl2
+        rw [← hsplit]
+        rw [hb] at h2
+        exact ⟨t2, by simpa [hl2] using h2⟩
+      | cons c u =>
+        rw [hb] at hsplit hl2 h2
+        have hws := blanks_ws w'
+        rw [hb] at hws
+        obtain ⟨t1, h1⟩ := space_ok (rest := (blanks w').2 ++ rest) (noWsHead_append (blanks_head w') (stops_ws hrest))
+          c u p (hws c (by simp)) (fun x hx => hws x (by simp [hx]))
+        have hcat : c :: u ++ ((blanks w').2 ++ rest) = w' ++ rest := by rw [← List.append_assoc, hsplit]
+        rw [hcat] at h1
+        have := Runs.star_cons (Runs.alt_l (b := .call R.Comment) h1) (by simpa using h2)
+        have e : p + (u.length + 1) + (blanks w').2.length = p + w'.length := by simp at hl2; omega
+        rw [e] at this
+        exact ⟨_, this⟩
+    cases hw with
+    | nil => exact ⟨_, by simpa using Runs.star_nil (Runs.alt_r (space_fail (stops_ws hrest)) (comment_fail (stops_cm hrest)))⟩
+    | ws hc _ => exact absurd hc hhead
+    | @long body w' hb hw' =>
+      obtain ⟨t1, h1⟩ := long_ok body (w' ++ rest) pos hb
+      have hsp : Runs G (.call R.Space) pos (47 :: 42 :: body ++ 42 :: 47 :: w' ++ rest) .fail := space_fail (by simp [NoWsHead, isWs])
+      have hcm : Runs G (.call R.Comment) pos (47 :: 42 :: body ++ 42 :: 47 :: w' ++ rest) _ :=
+        Runs.call_ok rule_Comment (Runs.alt_l (by simpa using h1))
+      simp at hlen
+      obtain ⟨t2, h2⟩ := cont w' (pos + (body.length + 4)) (by omega) hw'
+      have := Runs.star_cons (Runs.alt_r hsp hcm) h2
+      have e : pos + (body.length + 4) + w'.length = pos + (47 :: 42 :: body ++ 42 :: 47 :: w').length := by simp; omega
+      rw [e] at this
+      exact ⟨_, this⟩
+    | @line body w' hb hn hne hw' =>
+      obtain ⟨t1, h1⟩ := line_ok body (w' ++ rest) pos hb (nlHead_append hn hne)
+      have hsp : Runs G (.call R.Space) pos (47 :: 47 :: body ++ w' ++ rest) .fail := space_fail (by simp [NoWsHead, isWs])
+      have hlong : Runs G (.call R.LongComment) pos (47 :: 47 :: body ++ w' ++ rest) .fail :=
+        Runs.call_fail rule_Long (Runs.seq_fail1 (Runs.seq_fail2 (Runs.rng_ok (by decide)) (Runs.rng_fail (by decide))))
+      have hcm : Runs G (.call R.Comment) pos (47 :: 47 :: body ++ w' ++ rest) _ :=
+        Runs.call_ok rule_Comment (Runs.alt_r hlong (Runs.alt_l (by simpa using h1)))
+      simp at hlen
+      obtain ⟨t2, h2⟩ := cont w' (pos + (body.length + 2)) (by omega) hw'
+      have := Runs.star_cons (Runs.alt_r hsp hcm) h2
+      have e : pos + (body.length + 2) + w'.length = pos + (47 :: 47 :: body ++ w').length := by simp; omega
+      rw [e] at this
+      exact ⟨_, this⟩
+    | @unix body w' hb hn hne hw' =>
+      obtain ⟨t1, h1⟩ := unix_ok body (w' ++ rest) pos hb (nlHead_append hn hne)
+      have hsp : Runs G (.call R.Space) pos (35 :: body ++ w' ++ rest) .fail := space_fail (by simp [NoWsHead, isWs])
+      have hlong : Runs G (.call R.LongComment) pos (35 :: body ++ w' ++ rest) .fail :=
+        Runs.call_fail rule_Long (Runs.seq_fail1 (Runs.seq_fail1 (Runs.rng_fail (by decide))))
+      have hline : Runs G (.call R.LineComment) pos (35 :: body ++ w' ++ rest) .fail :=
+        Runs.call_fail rule_Line (Runs.seq_fail1 (Runs.seq_fail1 (Runs.rng_fail (by decide))))
+      have hcm : Runs G (.call R.Comment) pos (35 :: body ++ w' ++ rest) _ :=
+        Runs.call_ok rule_Comment (Runs.alt_r hlong (Runs.alt_r hline (by simpa using h1)))
+      simp at hlen
+      obtain ⟨t2, h2⟩ := cont w' (pos + (body.length + 1)) (by omega) hw'
+      have := Runs.star_cons (Runs.alt_r hsp hcm) h2
+      have e : pos + (body.length + 1) + w'.length = pos + (35 :: body ++ w').length := by simp; omega
+      rw [e] at this
+      exact ⟨_, this⟩
+
+/-- **Skip absorbs every whitespace / comment string**: blanks in any mix, `/* … */` (body without `*/`), `// …` and
+`# …` up to a line end, in any order and number, and stops at the first character that cannot continue it. -/
+theorem skip_absorbs (w rest : List Nat) (pos : Nat) (hw : SkipStr w) (hrest : StopsSkip rest) :
+    ∃ t, Runs G (.call R.Skip) pos (w ++ rest) (.ok (pos + w.length) rest t) := by
+  have hsplit := blanks_eq w
+  have hl2 := blanks_len w
+  obtain ⟨t2, h2⟩ := skipStar rest hrest _ (blanks w).2 (Nat.le_refl _) hw.after_blanks (blanks_head w) (pos + (blanks w).1.length)
+  cases hb : (blanks w).1 with
+  | nil =>
+    rw [hb] at hsplit hl2 h2
+    simp at hsplit hl2 h2
+    rw [hsplit] at h2
+    exact ⟨_, Runs.call_ok rule_Skip h2⟩
+  | cons c u =>
+    rw [hb] at hsplit hl2 h2
+    have hws := blanks_ws w
+    rw [hb] at hws
+    obtain ⟨t1, h1⟩ := space_ok (rest := (blanks w).2 ++ rest) (noWsHead_append (blanks_head w) (stops_ws hrest))
+      c u pos (hws c (by simp)) (fun x hx => hws x (by simp [hx]))
+    have hcat : c :: u ++ ((blanks w).2 ++ rest) = w ++ rest := by rw [← List.append_assoc, hsplit]
+    rw [hcat] at h1
+    have := Runs.call_ok rule_Skip (Runs.star_cons (Runs.alt_l (b := .call R.Comment) h1) (by simpa using h2))
+    have e : pos + (u.length + 1) + (blanks w).2.length = pos + w.length := by simp at hl2; omega
+    rw [e] at this
+    exact ⟨_, this⟩
+
 end PegTokens
